@@ -35,6 +35,39 @@ func c02(r *core.Run) {
 	c02RestTimeout(r)
 	c02RestGuards(r)
 	c02Rpc(r)
+
+	p := r.P
+	r.Check("D5/K5/chain-built-per-route", "the function that builds the default guard chain for a route writes no engine state: every route gets its own TimeoutHandler/MaxBytesHandler with its own limits (a chain stored back into the engine is reused by every later route)", func(o *core.O) {
+		n := 0
+		for _, f := range p.PkgFuncs("api") {
+			builds := false
+			for _, c := range core.Calls(f, core.CallTo("api/chain.New")) {
+				for _, a := range c.Common().Args {
+					if core.DependsOn(a, func(v ssa.Value) bool {
+						cc, ok := v.(*ssa.Call)
+						return ok && strings.HasSuffix(core.Short(core.CalleeName(cc)), "api/handler.TimeoutHandler")
+					}) {
+						builds = true
+					}
+				}
+			}
+			if !builds {
+				continue
+			}
+			n++
+			r.Fn(core.FuncName(f))
+			for _, g := range core.WithAnon(f) {
+				for _, in := range core.Instrs(g, func(in ssa.Instruction) bool {
+					st, ok := in.(*ssa.Store)
+					return ok && strings.HasPrefix(core.FieldAddrName(st.Addr), "engine.")
+				}) {
+					o.Fail(p.InstrPos(in), "%s stores into %s while binding a route: the next route inherits this route's guards", core.FuncName(f), core.FieldAddrName(in.(*ssa.Store).Addr))
+				}
+			}
+		}
+		o.Site(n)
+	})
+
 }
 
 // ---------------------------------------------------------------- REST timeout handler
